@@ -21,7 +21,7 @@ TIMEOUT = {"quick": 300, "thorough": 1500}
 
 
 def cases(tier, seed):
-    n = 30 if tier == "quick" else 600
+    n = 30 if tier == "quick" else 4000
     rng = random.Random(seed + 1900)
     cs = []
     for i in range(n):
